@@ -3,7 +3,9 @@ package midix
 import (
 	"io"
 	"iter"
+	"math"
 
+	"github.com/berquerant/crd/errorx"
 	"gitlab.com/gomidi/midi/v2"
 	"gitlab.com/gomidi/midi/v2/smf"
 )
@@ -34,6 +36,17 @@ type Reader interface {
 var (
 	_ Reader = &MIDIReader{}
 )
+
+// MaxReadableTrackNum is the number of tracks the smf reader can read back, it numbers tracks in an int16.
+const MaxReadableTrackNum = math.MaxInt16 + 1
+
+// CheckReadableTrackNum reports whether a file with trackNum tracks can be passed to Reader.
+func CheckReadableTrackNum(trackNum int) error {
+	if trackNum > MaxReadableTrackNum {
+		return errorx.Invalid("cannot read back more than %d tracks, %d", MaxReadableTrackNum, trackNum)
+	}
+	return nil
+}
 
 func NewReader() *MIDIReader {
 	return &MIDIReader{}
